@@ -1,47 +1,72 @@
 import AscaVerif.Props.C17Parse
-/-! C02, the repair of D2 (`fix:` commits "a number that does not fit a usize is a syntax error, not a panic"), proved
-    for lexer + parser on EVERY line: the lexer hands over only `Number` tokens that hold a digit and are below 2^64
-    (`Lex.lexLine_numbers_fit`), the parser only ever parses the digits of the token under its cursor, so none of the
-    parser's `parse::<usize>().unwrap()` / `expect()` sites (modelled as the panic sites `numberSites`) can be reached
-    with a number that does not fit.  Before the repair `C=99999999999999999999 > 1` was a panic of the model and of the
-    code; now it is the lexer's `NumberTooBig`.  (The interpreter's nine sites of the same kind read the digits of
-    `Variable` tokens the parser stored, i.e. of the same tokens; that they cannot fail either is not stated as a theorem
-    over the interpreter port.) -/
+import AscaVerif.Props.C02Parse
+/-! C02 for the rule front end, complete: **lexer + parser return on every line** - a rule, "no rule", or a
+    `RuleSyntaxError`; never a panic, never an endless loop.
+
+    The parser model has 20 `panic` sites (indexing the token list, `unwrap`/`expect` on numbers and matrices,
+    `unreachable!()`s, `DIACRITS[d]`).  `Lemmas/ParseSpans.lean` shows every one of them unreachable on the token lists the
+    lexer produces (`PanicOK := False` in its specifications):
+    * `token_list[pos-1]`, `token_list[pos]`: the cursor stays inside the list until the final `Eol` is consumed, and
+      `pos-1` is only read after a token has been consumed;
+    * the number parses: the lexer hands over only numbers below 2^64 (`Lex.lexLine_numbers_fit` - the repair of D2);
+    * `curr_token_to_modifier`'s `unreachable!()` and the `unreachable!()`s of `get_param_args`: a feature token is
+      `tone: digits` or a row of the feature table with a sign, every row names a node, a feature or one of the four
+      binary suprasegmentals (`Lex.lexLine_tokens_ok`, `rows_ok`: kernel-checked over the regenerated table);
+    * `DIACRITS[d]`: a diacritic token indexes the table;
+    * the `expect(matrix)`s: what `group_to_matrix`, `get_params`, `join_group_with_params` and `get_group` return is a matrix;
+    * `els.first().expect(..)`: a word boundary was seen only if the list is not empty;
+    * `value.chars().next().unwrap()`: the first token of a rule is neither `Eol` nor a comment, so its text is not empty;
+    * the `unreachable!()` after an empty term (`t,,ʰ`, former known finding D30) was REPAIRED (`fix:` commit): the stray
+      diacritic is now left to the caller, which reports `ExpectedArrow` / `ExpectedEndLine`. -/
 namespace Asca.Parse.Spans
 open Asca.Parse
 open Lex (Token TK)
 
 variable {L : Nat}
 
-/-- **no failed number parse**: on the lexer's token lists the parser never reaches one of its
-    `parse::<usize>().unwrap()` / `expect()` sites with a number that does not fit -/
-theorem parse_no_number_panic (toks : List Token) (hT : ToksOK L toks) (p : String) (h : parse toks = .panic p) : PanicOK p := by
+/-- **the parser does not panic** on the lexer's token lists -/
+theorem parse_no_panic (toks : List Token) (hT : ToksOK L toks) (p : String) : parse toks ≠ .panic p := by
+  intro h
   unfold parse at h
   split at h
-  · cases h; unfold PanicOK numberSites; decide
+  · exact hT.nonempty rfl
   · rename_i t rest
     split at h
     · cases h
-    · have hi : Inv L ({ toks := t :: rest, pos := 0, cur := t } : PS) := ⟨hT, by simp, Or.inl rfl⟩
-      have := rule_spans _ hi
+    · rename_i hguard
+      have hi : Inv L ({ toks := t :: rest, pos := 0, cur := t } : PS) := ⟨hT, by simp, Or.inl rfl⟩
+      have h0 : t.kind ≠ .eol ∧ t.kind ≠ .comment := by
+        simp only [Bool.or_eq_true, decide_eq_true_eq, not_or] at hguard; exact hguard
+      have := rule_spans _ hi h0
       split at h
       · cases h
       · cases h
-      · rename_i p' hx; cases h; rw [hx] at this; exact this
+      · rename_i p' hx; rw [hx] at this; exact this
       · cases h
 
-/-- **the repair of D2, for the parser, on every line**: whatever the line, lexer + parser do not panic on a number -
-    a number above `usize::MAX` is the lexer's `NumberTooBig` error, every other number parses -/
-theorem parseLine_no_number_panic (src : Text) (p : String) (h : parseLine src = .panic p) : PanicOK p := by
-  unfold parseLine at h
-  cases hl : Lex.lexLine src with
-  | ok toks => rw [hl] at h; exact parse_no_number_panic (L := src.length) toks (toksOK_of_lex src toks hl) p h
-  | err le => rw [hl] at h; cases h
+/-- **every rule line is parsed or rejected**: lexer + parser return `Ok(Some(rule))`, `Ok(None)` (blank or comment
+    line) or a `RuleSyntaxError`, for every list of code points -/
+theorem parseLine_returns (src : Text) : (∃ r, parseLine src = .ok r) ∨ (∃ e, parseLine src = .err e) := by
+  cases h : parseLine src with
+  | ok r => exact Or.inl ⟨r, rfl⟩
+  | err e => exact Or.inr ⟨e, rfl⟩
+  | outOfFuel q => have := Parse.parseLine_terminates src; rw [h] at this; exact absurd this (by intro h'; exact h')
   | panic q =>
     exfalso
-    rcases Lex.lexLine_returns src with ⟨t, ht⟩ | ⟨e, he⟩
-    · rw [ht] at hl; cases hl
-    · rw [he] at hl; cases hl
-  | outOfFuel q => rw [hl] at h; cases h
+    unfold parseLine at h
+    cases hl : Lex.lexLine src with
+    | ok toks => rw [hl] at h; exact parse_no_panic (L := src.length) toks (toksOK_of_lex src toks hl) q h
+    | err le => rw [hl] at h; cases h
+    | panic q' =>
+      rcases Lex.lexLine_returns src with ⟨t, ht⟩ | ⟨e, he⟩
+      · rw [ht] at hl; cases hl
+      · rw [he] at hl; cases hl
+    | outOfFuel q' => rw [hl] at h; cases h
+
+/-! Non-vacuity: the two former panics are errors now -/
+example : (match parseLine ("C=99999999999999999999 > 1".toList.map Char.toNat) with | .err e => some e | _ => none) = some ⟨"NumberTooBig", [(2, 22)]⟩ := by
+  decide +kernel
+example : (match parseLine ("t,,ʰ > x".toList.map Char.toNat) with | .err e => some e | _ => none) = some ⟨"ExpectedArrow", [(3, 4)]⟩ := by
+  decide +kernel
 
 end Asca.Parse.Spans
